@@ -322,7 +322,9 @@ class Process(StateMachine, persistence.Savable, metaclass=ProcessStateMachineMe
         """
         self._cleanups = []  # a list of functions to be ran on terminated
 
-        if self._communicator is not None:
+        # (a process recreated from the checkpoint of a terminal state is over: it will never be closed, so it must not
+        # subscribe for messages either)
+        if self._communicator is not None and not self.has_terminated():
             try:
                 identifier = self._communicator.add_rpc_subscriber(self.message_receive, identifier=str(self.pid))
                 self.add_cleanup(functools.partial(self._communicator.remove_rpc_subscriber, identifier))
